@@ -624,6 +624,9 @@ Settled(s, gated) ==
                     \/ r.w.st = "dying" /\ Released(r)
                     \/ r.w.st = "run" /\ ~WCanFinish(r) /\ (s \in gated \/ ~Moved(r) \/ ~Released(r))
                     \/ s \in gated)
+  \* an upload that still holds its data connection has taken everything that has arrived: it is waiting for more, not for
+  \* anything inside the server (another session's lock, say)
+  /\ (r.w.v \in {"stor", "appe"} /\ r.w.st = "run" /\ r.w.sock /\ r.ph = "open" => s \in gated \/ (r.din = <<>> /\ ~r.dineof))
   /\ ~(r.ph = "drain")
   /\ ~(r.ph = "open" /\ (r.ceof \/ r.crash \/ srv = "closed"))
 Quiescent(gated) == ~Overdue /\ \A s \in Sessions : Settled(s, gated)
